@@ -119,6 +119,7 @@ def gen_case(rng, tier="quick"):
     case["entry"] = _pick(rng, ["operators", "operators", "liouvillians"])
     case["one_tuples"] = rng.random() < 0.2
     case["staged_build"] = rng.random() < 0.25
+    case["homogeneous"] = rng.random() < 0.35
     case["entangled_start"] = kind == "generic" and rng.random() < 0.3
     return case
 
@@ -175,9 +176,17 @@ def site_terms(case):
     diag = case["kind"] == "commuting"
     mk = _diag_herm if diag else _herm
     hs = [mk(rng, dims[i], 0.8) for i in range(n)]
+    homog = case.get("homogeneous") and len(set(dims)) == 1
+    if homog:
+        # translation-invariant chain: every site and every bond carries
+        # bit-identical terms (the usual physical case)
+        hs = [hs[0].copy() for _ in range(n)]
     diss = []
     for i in range(n):
         d = dims[i]
+        if homog and i > 0:
+            diss.append([(op.copy(), g) for op, g in diss[0]])
+            continue
         if not case["dissipation"]:
             diss.append([])
         elif diag:
@@ -188,6 +197,9 @@ def site_terms(case):
             diss.append([(a / 2, float(abs(rng.normal()) * 0.3))])
     nn = []
     for i in range(n - 1):
+        if homog and i > 0 and case["kind"] != "uncoupled":
+            nn.append([(a.copy(), b.copy()) for a, b in nn[0]])
+            continue
         if case["kind"] == "uncoupled":
             nn.append([])
         else:
